@@ -448,9 +448,12 @@ def run(ctx: Ctx):
     ctx.cov["rule"] = (
         "cases: (n, batch, ratio, mode, seed, shuffle) for SimpleBatcher [small-scope grid over n x 29 ratios + "
         "seeded random stream], (n, num_batches|max_batch, start) for subdivide/generate_batches [grid incl. "
-        "error cases + random], toy reconstructions for loss scaling/determinism/reset; a case is distinct by "
-        "its arguments and drawn order, non-trivial when it has a non-empty validation set and >1 batch "
-        "(batcher) / >1 range (generate) / >1 batch (toy)")
+        "error cases + random], toy reconstructions for loss scaling/determinism/reset, incl. batch invariance of "
+        "the reported epoch loss / accumulated gradients under constraint dictionaries with non-zero soft-constraint "
+        "weights (every kind the toy's models have, calibrated to 0.1-3x the data term) on states reached by real "
+        "iterations; a case is distinct by its arguments and drawn order, non-trivial when it has a non-empty "
+        "validation set and >1 batch (batcher) / >1 range (generate) / >1 batch (toy) / a regulariser share > 2% "
+        "of the loss and >1 batch (soft constraints)")
     ctx.assumptions += [
         "np.random.Generator.permutation returns a permutation (its output is handed to the model as an oracle input)",
         "torch/numpy kernels are deterministic functions of their inputs on CPU (exercised, not proved)",
@@ -502,6 +505,13 @@ def replay(ctx: Ctx, path):
         obs = run_generate_case(c)
         bad = oracle_generate(c, obs)
         print("impl:", obs, "oracle:", bad or "ok")
+        return 1 if bad else 0
+    if rp.get("kind") == "toy-soft":      # batch invariance with non-zero soft-constraint weights (harness/c09_toy.py)
+        from .. import c09_toy
+        bad = c09_toy.replay_soft(rp)
+        for key, what in bad:
+            print("%s: %s" % (key, what))
+        print("oracle:", "property violated on this case" if bad else "property holds on this case")
         return 1 if bad else 0
     print("replay of kind %r: re-run ./check C09" % rp.get("kind"))
     return 0
